@@ -85,10 +85,9 @@ def range_facts(body, e):
     """facts implied by loop variables: v = each(Range{start: S, end: E}) gives S <= v < E"""
     out = []
     for x in mir.walk(e):
-        if x[0] == 'field' and x[2] == '0':
-            v = peel(x[1], calls=False)
-            if v[0] == 'variant' and v[2] == 'Some':
-                c = peel(v[1], calls=False)
+        if x[0] == 'try':
+            if True:
+                c = peel(x[1], calls=False)
                 if c[0] == 'call' and mir.method_name(c[1]) == 'next' and c[2]:
                     it = peel(c[2][0])
                     if it[0] == 'aggr' and it[2].endswith('ops::Range::Range'):
@@ -570,7 +569,7 @@ def rule_inventory(ctx):
             else:
                 ctx.violation('inventory', '%s:undischarged:%s' % (region, short), s.where(),
                               'panic site reachable from script/witness bytes is not discharged: %s %s in %s under guards %s'
-                              % (s.what, s.ops, b.path, [g for g in util.guards_at(b, s.bb) if not g.startswith('branch(')][-4:]))
+                              % (s.what, s.ops, b.path, [g for g in util.guards_at(b, s.bb) if not util.is_ok_guard(g)][-4:]))
     ctx.note('region (a): %d sites, region (b): %d sites; discharges: %s; %s' % (n_a, n_b, by_kind, env.entry_note))
     ctx.check('inventory', 'region-a-entry', any(b.path == ENTRY for b in reg_a), None, 'region (a) = %d bodies reachable from eval_from_bytes' % len(reg_a))
 
